@@ -6,6 +6,7 @@ import (
 	"fmt"
 	"os"
 	"path/filepath"
+	"slices"
 	"strings"
 	"sync"
 
@@ -174,7 +175,9 @@ func (c *Compiler) HandleDynamicVar(v ast.Var, dir string, e []string) (string, 
 
 	// The same command gives different results in different directories and
 	// environments: they are part of the cache key
-	cacheKey := strings.Join(append([]string{*v.Sh, dir}, e...), "\x00")
+	// (the environment is collected from a map, in no particular order)
+	sortedEnv := slices.Sorted(slices.Values(e))
+	cacheKey := strings.Join(append([]string{*v.Sh, dir}, sortedEnv...), "\x00")
 	if result, ok := c.dynamicCache[cacheKey]; ok {
 		return result, nil
 	}
